@@ -149,7 +149,10 @@ def get_files(
         base_resolved = Path(base).resolve()
         if not is_relative_to(base_resolved, must_be_relative_to):
             # Prevent a race between our checking if a symlink is valid, and our
-            # actually entering it.
+            # actually entering it. Nothing below a directory outside of our prefix is
+            # ours either: do not walk it (links to itself in there would make os.walk,
+            # which keeps no record of where it has been, go round for a very long time)
+            dirs[:] = []
             continue
 
         # Preserve both the actual resolved path and the directory name
